@@ -8,6 +8,7 @@ import Martian.JsonBytes
 import Proofs.JsonBytes
 import Proofs.JsonBytesLocal
 import Proofs.JsonBytesFilter
+import Proofs.InvocationStrValid
 namespace Martian.JsonBytes
 open Martian.Json (J Num)
 open Martian.Lexer (Bytes)
@@ -386,5 +387,135 @@ theorem parseTopA_toJ (data : Bytes) (a : A) (h : parseTopA data = some a) : par
       injection h with h; subst h
       simp [parseTop, ((spec_all _).1 data a' r hp).1, hws]
     · cases h
+
+
+/-! ### keys are always valid: no side condition left -/
+
+theorem parseStr_valid (t k r : Bytes) (h : parseStr t = some (k, r)) : validUtf8 k = true := by
+  unfold parseStr at h
+  split at h
+  · split at h
+    · simp only [Option.map_eq_some_iff, Prod.mk.injEq] at h
+      obtain ⟨s, hs, rfl, _⟩ := h
+      exact Martian.InvocationStr.jsonDecLoop_valid _ _ _ hs
+    · cases h
+  · cases h
+
+def KvV (f : Nat) : Prop := ∀ b a r, parseA f b = some (a, r) → keysValidA a = true
+def KvE (f : Nat) : Prop := ∀ b xs r, parseElemsA f b = some (xs, r) → keysValidAs xs = true
+def KvM (f : Nat) : Prop := ∀ b kvs r, parseMembersA f b = some (kvs, r) → keysValidKvs kvs = true
+
+theorem kvE_step (f : Nat) (hV : KvV f) (hE : KvE f) : KvE (f + 1) := by
+  intro b xs r h
+  simp only [parseElemsA] at h
+  cases hv : parseA f b with
+  | none => simp [hv] at h
+  | some p =>
+    obtain ⟨x1, r1⟩ := p
+    simp only [hv] at h
+    cases hs : skipWs r1 with
+    | nil => simp [hs] at h
+    | cons c r' =>
+      simp only [hs] at h
+      split at h
+      · simp only [Option.map_eq_some_iff] at h
+        obtain ⟨⟨xs', r''⟩, he, heq⟩ := h
+        simp only [Prod.mk.injEq] at heq
+        obtain ⟨rfl, rfl⟩ := heq
+        simp [keysValidAs, hV b x1 r1 hv, hE r' xs' r'' he]
+      · split at h
+        · simp only [Option.some.injEq, Prod.mk.injEq] at h
+          obtain ⟨rfl, rfl⟩ := h
+          simp [keysValidAs, hV b x1 r1 hv]
+        · cases h
+
+theorem kvM_step (f : Nat) (hV : KvV f) (hM : KvM f) : KvM (f + 1) := by
+  intro b kvs r h
+  simp only [parseMembersA] at h
+  cases hkk : parseStr (skipWs b) with
+  | none => simp [hkk] at h
+  | some p =>
+    obtain ⟨k, r0⟩ := p
+    simp only [hkk] at h
+    have hkv := parseStr_valid _ k r0 hkk
+    cases hs : skipWs r0 with
+    | nil => simp [hs] at h
+    | cons c r1 =>
+      simp only [hs] at h
+      split at h
+      · cases hv : parseA f r1 with
+        | none => simp [hv] at h
+        | some q =>
+          obtain ⟨xv, r2⟩ := q
+          simp only [hv] at h
+          cases hs2 : skipWs r2 with
+          | nil => simp [hs2] at h
+          | cons c2 r3 =>
+            simp only [hs2] at h
+            split at h
+            · simp only [Option.map_eq_some_iff] at h
+              obtain ⟨⟨kvs', r''⟩, hm, heq⟩ := h
+              simp only [Prod.mk.injEq] at heq
+              obtain ⟨rfl, rfl⟩ := heq
+              simp [keysValidKvs, hkv, hV r1 xv r2 hv, hM r3 kvs' r'' hm]
+            · split at h
+              · simp only [Option.some.injEq, Prod.mk.injEq] at h
+                obtain ⟨rfl, rfl⟩ := h
+                simp [keysValidKvs, hkv, hV r1 xv r2 hv]
+              · cases h
+      · cases h
+
+theorem kvV_step (f : Nat) (hE : KvE f) (hM : KvM f) : KvV (f + 1) := by
+  intro b a r h
+  have hch := parseA_children f b a r h
+  cases a with
+  | lit raw j => rfl
+  | arr raw xs =>
+    simp only [keysValidA]
+    rcases hch with rfl | ⟨b', he⟩
+    · rfl
+    · exact hE b' xs r he
+  | obj raw kvs =>
+    simp only [keysValidA]
+    rcases hch with rfl | ⟨b', hm⟩
+    · rfl
+    · exact hM b' kvs r hm
+
+theorem kv_all : ∀ f, KvV f ∧ KvE f ∧ KvM f
+  | 0 => ⟨by intro b a r h; simp [parseA] at h, by intro b xs r h; simp [parseElemsA] at h,
+      by intro b kvs r h; simp [parseMembersA] at h⟩
+  | f + 1 =>
+    have ih := kv_all f
+    ⟨kvV_step f ih.2.1 ih.2.2, kvE_step f ih.1 ih.2.1, kvM_step f ih.1 ih.2.2⟩
+
+/-- EVERY document the parser accepts is annotated soundly: at every node the raw slice denotes
+the node's tree, and every key is valid UTF-8 -/
+theorem sound_of_parseTopA (data : Bytes) (a : A) (h : parseTopA data = some a) : ASound a := by
+  have hk : keysValidA a = true := by
+    unfold parseTopA at h
+    cases hp : parseA (data.length + 1) data with
+    | none => simp [hp] at h
+    | some p =>
+      obtain ⟨a', r⟩ := p
+      simp only [hp] at h
+      split at h
+      · injection h with h; subst h; exact (kv_all _).1 data a' r hp
+      · cases h
+  exact sound_parseTopA data a h hk
+
+/-- FILTER BYTES, hypothesis-free: for every type (member names valid UTF-8) and every input the
+grammar accepts, the bytes `FilterJson` returns are a JSON document, and it is the document of the
+tree the model returns -/
+theorem filterBytes_parses (t : Martian.Types.Ty) (hk : tyKeysOk t = true) (data out : Bytes)
+    (e : Martian.Types.FErr) (h : filterBytes t data = some (out, e)) :
+    ∃ a, parseTopA data = some a ∧ out = (filterA t a).out.raw ∧ parseTop out = some (filterA t a).out.toJ := by
+  unfold filterBytes at h
+  cases hp : parseTopA data with
+  | none => simp [hp] at h
+  | some a =>
+    simp only [hp, Option.map_some, Option.some.injEq, Prod.mk.injEq] at h
+    refine ⟨a, rfl, h.1.symm, ?_⟩
+    rw [← h.1]
+    exact parseTop_of_den (sound_filterA t hk a (sound_of_parseTopA data a hp)).den
 
 end Martian.JsonBytes
